@@ -21,6 +21,21 @@ func c03Alphabet(c Cfg) []Op {
 		{K: "batch", Sub: []Op{{K: "put", Key: "a", VC: "S"}, {K: "del", Key: "b"}}, Dev: true},
 		{K: "batch", Sub: []Op{{K: "put", Key: "a", VC: "L"}, {K: "put", Key: "b", VC: "L"}, {K: "put", Key: "a", VC: "S"}}, Dev: true},
 		{K: "batch", Arg: 1, Sub: []Op{{K: "put", Key: "b", VC: "S"}, {K: "put", Key: "a", VC: "S"}}, Dev: true},
+		// the only operations that rename / remove: a merge, and the restart that adopts it (crash points inside
+		// the adopting Open; the nested retries are C07's)
+		{K: "merge", Dev: true},
+		{K: "restart", Dev: true},
+	}
+}
+
+// c03BlockAlphabet (block family, DataFileSize 1 MiB): multi-block values, records ending next to block boundaries.
+func c03BlockAlphabet(c Cfg) []Op {
+	return []Op{
+		{K: "put", Key: "a", VC: "S"},
+		{K: "put", Key: "b", VC: "M"},
+		{K: "put", Key: "b", VC: "B", Arg: 3},
+		{K: "put", Key: "a", VC: "F", Arg: 40000},
+		{K: "batch", Sub: []Op{{K: "put", Key: "a", VC: "S"}, {K: "put", Key: "b", VC: "M"}}},
 	}
 }
 
@@ -99,21 +114,35 @@ func judgeCrash(prop string, cfg Cfg, keys []string, ops []Op, from int, run *cr
 			plo = hi
 		}
 		var v *Violation
-		cutImages(p, pairCutCap, func(s *Snap, desc string) bool {
+		cutImages(p, pairCutCap, cutFilter, func(s *Snap, desc string) bool {
 			h := s.hash() ^ uint64(plo*977+hi*31+7)
 			if seen[h] {
 				return true
 			}
 			seen[h] = true
 			res.count("cut_images", 1)
-			r := recoverImage(s, cfg, keys, res)
+			var r recovery
+			if continueAfterCuts {
+				r = recoverImageCont(s, cfg, keys, res, func(w *World, d *Dump) string {
+					if j := matchState(d, run.States, plo, hi); j >= 0 {
+						return continueAfterRecovery(w, run.States[j])
+					}
+					return ""
+				})
+			} else {
+				r = recoverImage(s, cfg, keys, res)
+			}
 			var pv *Violation
 			if r.OpenErr != "" {
 				pv = mk("power-open-fails", "power-open-fails:"+firstWord(r.OpenErr)+":"+tailKind(s), "power loss: Open failed: "+r.OpenErr, p, " + "+desc)
 			} else if j := matchState(r.Dump, run.States, plo, hi); j < 0 {
 				pv = mk("power-not-a-durable-prefix", "power-not-a-durable-prefix:"+tailKind(s), fmt.Sprintf("power loss: recovered %s\nallowed (durable lower bound %d): %s", r.Dump, plo, allowed(run.States, plo, hi)), p, " + "+desc)
 			} else if r.Second != "" {
-				pv = mk("power-second-open", "power-second-open:"+tailKind(s), "power loss: "+r.Second, p, " + "+desc)
+				clause := "power-second-open"
+				if strings.HasPrefix(r.Second, "continuing after recovery") {
+					clause = "power-continuation"
+				}
+				pv = mk(clause, clause+":"+tailKind(s), "power loss: "+r.Second, p, " + "+desc)
 			}
 			if pv != nil {
 				if !isKnown(pv) {
@@ -152,6 +181,12 @@ func tailKind(s *Snap) string {
 	}
 	return "record-boundary"
 }
+
+// cutFilter (optional): which cut lengths of a tail [from,to) are explored (nil = every length).
+var cutFilter func(n, from, to int64) bool
+
+// continueAfterCuts: run the post-recovery continuation on power-loss images too (block family).
+var continueAfterCuts bool
 
 // pairCutCap: pairs of files are cut at every combination of lengths when the product is below the cap.
 var pairCutCap = 4096
@@ -208,7 +243,29 @@ func c03Tasks(tier string) []Task {
 	for d := 1; d <= maxD; d++ {
 		levels = append(levels, seqLevel{Name: fmt.Sprintf("len%d", d), Cfgs: c03Cfgs(), Keys: keysAB, Alpha: c03Alphabet, Depth: d, Dev: 3, Run: runC03, MaxViols: 1})
 	}
-	return seqTasks("C03", levels)
+	tasks := seqTasks("C03", levels)
+	// block family: cuts within 16 bytes of every block boundary and of both ends of the tail, every 4096th byte
+	// otherwise (declared, not every byte); the recovered database is driven on after EVERY image
+	blk := defaultCfg
+	blk.FileSize = 1 << 20
+	bd := 2
+	if tier == "thorough" {
+		bd = 3
+	}
+	runBlock := func(cfg Cfg, keys []string, ops []Op, res *TaskResult) *Violation {
+		cutFilter = func(n, from, to int64) bool {
+			off := n % 32768
+			return off <= 16 || off >= 32768-16 || n-from <= 16 || to-n <= 16 || n%4096 == 0
+		}
+		continueAfterCuts = true
+		defer func() { cutFilter, continueAfterCuts = nil, false }()
+		return runC03(cfg, keys, ops, res)
+	}
+	var bl []seqLevel
+	for d := 1; d <= bd; d++ {
+		bl = append(bl, seqLevel{Name: fmt.Sprintf("block-len%d", d), Cfgs: []Cfg{blk}, Keys: keysAB, Alpha: c03BlockAlphabet, Depth: d, Dev: 3, Run: runBlock, MaxViols: 1})
+	}
+	return append(tasks, seqTasks("C03", bl)...)
 }
 
 func init() {
